@@ -424,6 +424,8 @@ var hmuts = func() []hmut {
 		"html": {"text/html"}, "manifest": {"application/vnd.oci.image.manifest.v1+json"}, "multi-suffix": {"application/x+json+other"},
 		"semicolons": {";;;"}, "no-subtype": {"application/"}, "bad-param": {"a/b; ="}, "plus": {"application/+"},
 		"plus-json": {"application/+json"}, "upper": {"APPLICATION/JSON"}, "json-plus": {"application/json+"},
+		"three-suffixes": {"application/vnd.acme.error+v2+json"}, "suffixes-no-json": {"application/a+b+c"}, "double-plus": {"application/a++json"},
+		"many-plus": {"application/" + strings.Repeat("x+", 40) + "json"},
 	})
 	add("OCI-Chunk-Min-Length", "minchunk", map[string][]string{
 		"absent": nil, "empty": {""}, "abc": {"abc"}, "negative": {"-1"}, "zero": {"0"}, "one": {"1"}, "mib": {"1048576"},
